@@ -23,7 +23,7 @@ def run(tier, t0):
     def scope(fn):
         return fn.file in ('core/eval_expression.cpp', 'core/eval_expression.h', 'core/Var.cpp', 'core/Var.h',
                            'core/Operator.cpp', 'core/Operator.h')
-    results = [expr.prec(prog), expr.ops(prog), expr.cap(prog), expr.lit_pair(prog), expr.lit_conv(prog),
+    results = [expr.prec(prog), expr.ops(prog), expr.cap(prog), expr.lit_pair(prog), expr.lit_conv(prog), expr.cap_protocol(prog),
                div.div(prog, scope, 2), err.err1(prog, scope, table, floor=5)]
     return report.finish('C04', tier, results, EXPLANATION,
                          ['the documented precedence table (docs + property statement) is transcribed in rules/expr.py'],
